@@ -2,7 +2,8 @@
 From Coq Require Import List NArith ZArith Bool.
 Import ListNotations.
 From VF Require Export C04.Model.
-From VF Require Import C04.Inst gen.Gen_C04.
+From VF Require Export C04.ModelKW.
+From VF Require Import C04.Inst C04.InstKW gen.Gen_C04.
 Local Open Scope N_scope.
 
 Definition opt_rs_eqb (a b : option (Z * Z)) : bool :=
@@ -51,6 +52,16 @@ Definition alter (l : bytes) (alt : salt) : bytes :=
 Inductive vmode := VSame | VImport.          (* verify with kh.Public() of the signer / with the re-imported exported key *)
 Inductive aalt := ANone | ACipher (x : salt) | ANonce (x : salt) | AAad | AOtherKeys.
 
+(* what is changed between WrapKey's output and UnwrapKey's input (one field at a time) *)
+Inductive kwalt :=
+| KNone
+| KEnc (x : salt) | KApu (x : salt) | KApv (x : salt) | KTag (x : salt)
+| KAlg (a : kwalg)
+| KEpkX (x : salt) | KEpkY (x : salt) | KEpkCrv (c : crv) | KEpkTyp (t : ktyp)
+| KSenderX (x : salt) | KOtherSender | KNoSender
+| KOtherRcp                         (* a recipient handle holding another key of the same type *)
+| KOtherTypeRcp (t : ktyp) (c : crv)  (* a recipient handle of another key type / curve *).
+
 Inductive case :=
 (* Go codec on (r,s): encoder output (None = error) ; model must agree and decode it back *)
 | CCodec (e : senc) (r s : Z) (go_enc : option bytes)
@@ -76,9 +87,78 @@ Inductive case :=
 | CBbs (classes : list nat) (signed presented : list Z) (acc : bool)
 (* signature/verifier.PublicKeyVerifier on the exported public key: curve byte size, key signs DER or P1363, other key /
    other message, alteration, REAL signature, (r,s) obtained independently, accepted *)
-| CPkv (n : nat) (der : bool) (okey omsg : bool) (alt : salt) (sig : bytes) (rs : option (Z * Z)) (acc : bool).
+| CPkv (n : nat) (der : bool) (okey omsg : bool) (alt : salt) (sig : bytes) (rs : option (Z * Z)) (acc : bool)
+(* one WrapKey + UnwrapKey through the crypto service (see check_kw) *)
+| CKw (t : ktyp) (c : crv) (pu xc : bool) (ceklen : nat) (defapu : bool) (rw ru sw su : nat) (walt : salt) (alt : kwalt)
+      (alg : kwalg) (enclen : nat) (code : nat).
 
 Definition row (i : nat) : option ktrow := nth_error table i.
+
+(* ---------- key wrapping ---------- *)
+Definition set_x (p : pubkey) (x : bytes) : pubkey := {| p_typ := p_typ p; p_crv := p_crv p; p_x := x; p_y := p_y p |}.
+Definition set_y (p : pubkey) (y : bytes) : pubkey := {| p_typ := p_typ p; p_crv := p_crv p; p_x := p_x p; p_y := y |}.
+Definition set_epk (w : wrapped) (e : pubkey) : wrapped :=
+  {| w_alg := w_alg w; w_enc := w_enc w; w_epk := e; w_apu := w_apu w; w_apv := w_apv w |}.
+
+Definition kw_key (t : ktyp) (c : crv) (base i : nat) : kwkey :=
+  {| k_typ := t; k_crv := c; k_priv := N.of_nat (base + i) |}.
+(* the handle after n rotations: n+1 keys, the newest is the primary *)
+Definition kw_ks (t : ktyp) (c : crv) (base n : nat) : kwks :=
+  {| kk_keys := map (kw_key t c base) (seq 0 (S n)); kk_primary := n |}.
+
+(* outcome codes: 0 = unwrapped to the cek, 1 = not unwrapped (error; for the symbolic key-wrap instances, whose
+   bodies carry the message in clear, also "another message", as check_aead does), 2 = panic.  The harness reports a
+   real unwrap to another key as an oracle failure of its own. *)
+Definition kw_code (cek : bytes) (r : res bytes) : nat :=
+  match r with Ok m => if bytes_eqb m cek then 0 else 1 | Err => 1 | Panic => 2 end%nat.
+
+(* one WrapKey + UnwrapKey: key type and curve of the recipient, 1PU?, XC20P?, cek length, apu left empty?,
+   rotations of the recipient handle when the key was exported / when UnwrapKey runs, the same for the sender,
+   alteration of the recipient's exported X before WrapKey, alteration before UnwrapKey; REAL alg, length of the
+   REAL encrypted key, REAL default apu = base64url(epk.X)?, outcome code *)
+Definition check_kw (t : ktyp) (c : crv) (pu xc : bool) (ceklen : nat) (defapu : bool)
+  (rw ru sw su : nat) (walt : salt) (alt : kwalt) (alg : kwalg) (enclen : nat) (code : nat) : bool :=
+  let cek := repeat 5 ceklen in
+  let apu := if defapu then [] else [1; 2] in
+  let apv := [3] in
+  let tag := [4] in
+  let nonce := repeat 9 24 in
+  let rcp0 := i_pub_of (kw_key t c 10 rw) in
+  let rcp := set_x rcp0 (alter (p_x rcp0) walt) in
+  let sender := if pu then Some (kw_ks t c 20 sw) else None in
+  match i_wrap KwFixed cek apu apv tag sender rcp xc 40 nonce with
+  | Err => Nat.eqb code 1
+  | Panic => Nat.eqb code 2
+  | Ok w =>
+      let sp0 := if pu then Some (i_pub_of (kw_key t c 20 su)) else None in
+      let w' := match alt with
+                | KEnc x => {| w_alg := w_alg w; w_enc := alter (w_enc w) x; w_epk := w_epk w; w_apu := w_apu w; w_apv := w_apv w |}
+                | KApu x => {| w_alg := w_alg w; w_enc := w_enc w; w_epk := w_epk w; w_apu := alter (w_apu w) x; w_apv := w_apv w |}
+                | KApv x => {| w_alg := w_alg w; w_enc := w_enc w; w_epk := w_epk w; w_apu := w_apu w; w_apv := alter (w_apv w) x |}
+                | KAlg a => {| w_alg := a; w_enc := w_enc w; w_epk := w_epk w; w_apu := w_apu w; w_apv := w_apv w |}
+                | KEpkX x => set_epk w (set_x (w_epk w) (alter (p_x (w_epk w)) x))
+                | KEpkY x => set_epk w (set_y (w_epk w) (alter (p_y (w_epk w)) x))
+                | KEpkCrv c' => set_epk w {| p_typ := p_typ (w_epk w); p_crv := c'; p_x := p_x (w_epk w); p_y := p_y (w_epk w) |}
+                | KEpkTyp t' => set_epk w {| p_typ := t'; p_crv := p_crv (w_epk w); p_x := p_x (w_epk w); p_y := p_y (w_epk w) |}
+                | _ => w
+                end in
+      let tag' := match alt with KTag x => alter tag x | _ => tag end in
+      let sp := match alt, sp0 with
+                | KSenderX x, Some p => Some (set_x p (alter (p_x p) x))
+                | KOtherSender, Some _ => Some (i_pub_of (kw_key t c 30 0))
+                | KNoSender, _ => None
+                | _, _ => sp0
+                end in
+      let rks := match alt with
+                 | KOtherRcp => kw_ks t c 50 0
+                 | KOtherTypeRcp t' c' => kw_ks t' c' 60 0
+                 | _ => kw_ks t c 10 ru
+                 end in
+      Nat.eqb (kw_code cek (i_unwrap KwFixed w' tag' sp rks)) code
+      && (alg_id (w_alg w) =? alg_id alg)
+      && Nat.eqb enclen (if is_xc (w_alg w) then 24 + ceklen + 16 else ceklen + 8)
+  end.
+
 
 Definition check_sig (kt : nat) (created : bool) (kid : N) (pt : ptype) (vm : vmode) (okey omsg : bool)
   (alt : salt) (sig : bytes) (rs : option (Z * Z)) (acc : bool) : bool :=
@@ -190,6 +270,8 @@ Definition check_case (c : case) : bool :=
   | CSigKs kt sk vks omsg alt sig acc => check_sigks kt sk vks omsg alt sig acc
   | CBbs classes signed presented acc => check_bbs classes signed presented acc
   | CPkv n der okey omsg alt sig rs acc => check_pkv n der okey omsg alt sig rs acc
+  | CKw t c pu xc ceklen defapu rw ru sw su walt alt alg enclen code =>
+      check_kw t c pu xc ceklen defapu rw ru sw su walt alt alg enclen code
   end.
 
 Fixpoint mismatches_from (i : nat) (cs : list case) : list nat :=
